@@ -461,9 +461,31 @@ func twinRoot(cfg runCfg, ops []linOp) (root common.Hash, tw *inst, w *world, er
 		}
 	}
 	if !last.hasRoot {
-		return root, nil, w, fmt.Errorf("twin: lineage does not end with a root computation")
+		return root, cur, w, fmt.Errorf("twin: lineage does not end with a root computation")
 	}
 	return last.root, cur, w, nil
+}
+
+// twinObserve executes the EFFECTIVE lineage of an instance (its calls minus everything it
+// reverted) in isolation and reports whether that twin shows the expected observables.
+func twinObserve(cfg runCfg, x int, eff []linOp, want *obsT) (agrees bool, err error) {
+	_, tw, w, e := twinRoot(cfg, eff)
+	if w != nil {
+		defer w.close()
+	}
+	if tw == nil {
+		return false, e
+	}
+	var pan interface{}
+	var m *mismatch
+	func() {
+		defer func() { pan = recover() }()
+		m = observe(cfg, x, tw.s, want)
+	}()
+	if pan != nil {
+		return false, fmt.Errorf("twin: getter panicked: %v", pan)
+	}
+	return m == nil, nil
 }
 
 // ---- observation -------------------------------------------------------------------------------
